@@ -50,14 +50,51 @@ theorem parseSize_other (b : UInt8) (ds : Bytes) (h : b ≠ 43) :
 
 theorem atoi_other (b : UInt8) (ds : Bytes) (h : b ≠ 43) (h2 : b ≠ 45) :
     Go.atoi (b :: ds) = match parseDec (b :: ds) with
-      | some n => ((n : Nat), none) | none => (0, some "strconv.ErrSyntax") := by
+      | some n => if n ≤ Go.maxInt64 then ((n : Nat), none) else ((Go.maxInt64 : Nat), some "strconv.ErrRange")
+      | none => (0, some "strconv.ErrSyntax") := by
   unfold Go.atoi
   split
   · rename_i ds' heq; simp at heq; exact absurd heq.1 h
   · rename_i ds' heq; simp at heq; exact absurd heq.1 h2
   · rfl
 
-theorem atoi_parseSize (h : Bytes) :
+theorem digitVal_le (b : UInt8) : digitVal b ≤ 9 := by
+  unfold digitVal; split <;> omega
+
+theorem parseDecAux_lt (ds : Bytes) : ∀ (acc n : Nat), parseDecAux acc ds = some n → n < (acc + 1) * 10 ^ ds.length := by
+  induction ds with
+  | nil => intro acc n h; simp [parseDecAux] at h; subst h; simp
+  | cons b t ih =>
+    intro acc n h
+    simp only [parseDecAux] at h
+    split at h
+    · have := ih _ _ h
+      have hd := digitVal_le b
+      have h2 : (acc * 10 + digitVal b + 1) * 10 ^ t.length ≤ ((acc + 1) * 10) * 10 ^ t.length :=
+        Nat.mul_le_mul_right _ (by omega)
+      simp only [List.length_cons, Nat.pow_succ]
+      calc n < (acc * 10 + digitVal b + 1) * 10 ^ t.length := this
+        _ ≤ ((acc + 1) * 10) * 10 ^ t.length := h2
+        _ = (acc + 1) * (10 ^ t.length * 10) := by rw [Nat.mul_assoc, Nat.mul_comm 10]
+    · simp at h
+
+theorem parseDec_lt (ds : Bytes) (n : Nat) (h : parseDec ds = some n) : n < 10 ^ ds.length := by
+  cases ds with
+  | nil => simp [parseDec] at h
+  | cons b t =>
+    have := parseDecAux_lt (b :: t) 0 n (by simpa [parseDec] using h)
+    simpa using this
+
+theorem parseDec_small (ds : Bytes) (n : Nat) (h : parseDec ds = some n) (hl : ds.length ≤ 18) :
+    n ≤ Go.maxInt64 := by
+  have h1 := parseDec_lt ds n h
+  have h2 : 10 ^ ds.length ≤ 10 ^ 18 := Nat.pow_le_pow_right (by decide) hl
+  have h3 : 10 ^ 18 ≤ Go.maxInt64 := by decide
+  omega
+
+/-- `strconv.Atoi` followed by the `> 0` guard is `parseSize`, on a header short enough not to
+    overflow (the code reads at most `maxChunkSizeCharLen` = 10 characters) -/
+theorem atoi_parseSize (h : Bytes) (hl : h.length ≤ 18) :
     match parseSize h with
     | some n => Go.atoi h = (((n : Nat) : Int), none) ∧ 0 < n
     | none => (Go.atoi h).2 ≠ none ∨ (Go.atoi h).1 ≤ 0 := by
@@ -67,18 +104,27 @@ theorem atoi_parseSize (h : Bytes) :
     by_cases h1 : b = 43
     · subst h1
       simp only [parseSize, Go.atoi]
-      cases parseDec ds with
+      cases hp : parseDec ds with
       | none => simp
-      | some n => by_cases hn : n = 0 <;> simp [hn] <;> omega
+      | some n =>
+        have hs := parseDec_small ds n hp (by simp at hl; omega)
+        by_cases hn : n = 0 <;> simp [hn, hs] <;> omega
     · by_cases h2 : b = 45
       · subst h2
         rw [parseSize_other _ _ h1, parseDec_minus]
         simp only [Go.atoi]
-        cases parseDec ds <;> simp <;> omega
-      · rw [parseSize_other _ _ h1, atoi_other _ _ h1 h2]
-        cases parseDec (b :: ds) with
+        cases hp : parseDec ds with
         | none => simp
-        | some n => by_cases hn : n = 0 <;> simp [hn] <;> omega
+        | some n =>
+          have hs := parseDec_small ds n hp (by simp at hl; omega)
+          have hs' : n ≤ Go.maxInt64 + 1 := by omega
+          simp [hs']
+      · rw [parseSize_other _ _ h1, atoi_other _ _ h1 h2]
+        cases hp : parseDec (b :: ds) with
+        | none => simp
+        | some n =>
+          have hs := parseDec_small (b :: ds) n hp hl
+          by_cases hn : n = 0 <;> simp [hn, hs] <;> omega
 
 theorem inner_loop (fuel : Nat) (raw result d joined : Bytes) (term : Bool) (c : Nat) :
     ∀ (j k g : Nat), k + j = Gen.Response.maxChunkSizeCharLen + 1 → j + 1 ≤ g →
@@ -266,7 +312,7 @@ theorem outer_loop (fuel : Nat) (raw result d : Bytes)
                 simp [Expect, parseSize]
               · have hne : (h == ([] : Bytes)) = false := by simpa using hh0
                 simp only [hne, Bool.false_eq_true, if_false]
-                have hps := atoi_parseSize h
+                have hps := atoi_parseSize h (by have : Gen.Response.maxChunkSizeCharLen = 10 := rfl; omega)
                 cases hp : parseSize h with
                 | none =>
                   rw [hp] at hps
